@@ -6,7 +6,7 @@
    system (Model/Sim.v [raise_interrupt]); the system's Output then asks to be called back at once.
    Property theorems only. *)
 From TV Require Import Base Gen.SourceConsts Model.Wiring Model.Ticker Model.Component Model.Sim Model.Master Model.WakeFlag
-  Proofs.MasterP Proofs.WakeFlagP.
+  Proofs.MasterP Proofs.WakeFlagP Model.PyLib Gen.SourceFuns Proofs.GenInterruptP.
 Open Scope Z_scope.
 
 (* not lost: in any phase once the scheduler has started, the interrupt gives the component a
@@ -72,3 +72,11 @@ Example C07_nonvacuous :
   let '(m5, o5) := step [] [3%positive; 4%positive] 0 1 1 m4 30 ITimer in
   o3 = [] /\ o4 = [OTickEnd 0; OArm 30] /\ o5 = [OTickStart 10 [4%positive]; OAct (Upd 4%positive 10 [])].
 Proof. vm_compute. repeat split; reflexivity. Qed.
+
+(* the tie to the source: what an interrupt leaves in the wakeup table of the master machine IS what the end of
+   MasterScheduler.schedule_interrupt does with the stamp -- `add_wakeup(source, min(when, wakeups.get(source, when)))` --
+   regenerated from /repo by the function translator (harness/gen_funs.py) on every run.  (The stamp itself is real-time
+   float arithmetic: modelled over the rationals and compared per run, C12.) *)
+Theorem C07_interrupt_bookkeeping_is_source : forall num den (m : master) (r : Z) (c : comp),
+  gen_schedule_interrupt (mw m) c (stamp num den m r) = interrupt_wake num den m r c.
+Proof. exact interrupt_wake_is_source. Qed.
